@@ -299,7 +299,9 @@ LoopEnd ==
 \* then take nfinalEff fresh samples there
 FinalBegin ==
   /\ phase = "final"
-  /\ phase' = IF noisy /\ iter > 0 /\ nfinalEff > 0 THEN "finalsample" ELSE "result"
+  \* the final samples are taken in every noisy run (also when no poll iteration
+  \* completed: only the choice among history iterates needs iter > 0)
+  /\ phase' = IF noisy /\ nfinalEff > 0 THEN "finalsample" ELSE "result"
   /\ UNCHANGED <<fc, ncalls, nlog, noisy, budgetEff, nfinalEff, k, ks, iter,
                  sc, ss, spree, doSearch, doPoll, pcount, premain, pgood, pbest,
                  inc, minSeen, lastRec, nrec, finished, msg, np, nfinalDone,
@@ -379,7 +381,7 @@ IncumbentMonotone ==
 
 \* C05 -- all reserved final samples are taken, after everything else
 FinalSamplesTaken ==
-  (phase = "done" /\ noisy /\ iter > 0) => nfinalDone = nfinalEff
+  (phase = "done" /\ noisy) => nfinalDone = nfinalEff
 FinalSamplesLast ==
   [][(nfinalDone' # nfinalDone) => phase = "finalsample"]_vars
 
